@@ -115,7 +115,8 @@ fn check_arrival_timing(ctx: &mut Ctx, bin: &str) {
 
 /// queries that route data through every unordered container of the implementation
 fn query(r: &mut Rng) -> (String, &'static str) {
-    match r.below(18) {
+    match r.below(19) {
+        18 => ((*r.pick(&["* | json | count by k", "* | json | count, sum(n) by k, b", "* | json | count by k | sort by k", "* | json | count_distinct(k) by b", "* | json | sort by k, n", "* | json | count by k | total(_count) as t"])).to_string(), "number-spellings"),
         16 | 17 => ((*r.pick(&["* | json | sum(x) as s by k, b | sum(s) as total", "* | json | avg(x) as a by k, s | avg(a) as aa, sum(a) as sa", "* | json | sum(x) as s by s | sum(s) as total, count as groups", "* | json | avg(x) as a by k, b, s | p50(a) as med, sum(a) as sa", "* | json | sum(x) as s, count as c by s | sum(s) as t by c"])).to_string(), "agg-of-agg-float"),
         13 | 14 => ((*r.pick(&["* | json", "* | json | sort by n", "* | json | sort by n desc | limit 3", "* | json | fields except n", "* | json | count by n | sort by n"])).to_string(), "near-equal-field-names"),
         0 => ("* | json".into(), "nested-object-key-order"),
@@ -160,6 +161,19 @@ pub fn check(ctx: &mut Ctx) {
         if family == "big-int-keys" {
             // 64-bit ids above 2^53 that are neighbours as integers but the same double
             input = (0..rows).map(|i| format!("{{\"big\":{},\"n\":{}}}\n", 1152921504606846976i64 + (i as i64 % 7), i % 3)).collect::<String>().into_bytes();
+        }
+        if family == "number-spellings" {
+            // one number written in several ways (1, 1.0, 1e0, 10e-1 …): every spelling must arrive
+            // as the same stored value (the premise `hnorm` of C13_emit_order_independent_unconditional:
+            // two keys that compare Equal are one HashMap key), otherwise tied rows show the hash order
+            let sp: [&[&str]; 4] = [&["1", "1.0", "1e0", "10e-1", "100E-2", "1.000"], &["-3", "-3.0", "-30e-1", "-0.3e1"], &["2.5", "2.50", "25e-1", "0.25E1"], &["0", "0.0", "-0.0", "0e5", "-0"]];
+            input = (0..rows.max(6))
+                .map(|i| {
+                    let g = sp[r.below(4)];
+                    format!("{{\"k\":{},\"b\":{},\"n\":{}}}\n", r.pick(g), r.pick(&["true", "false"]), i % 3)
+                })
+                .collect::<String>()
+                .into_bytes();
         }
         if family == "nested-object-as-text" {
             // identical rows whose values hold objects ONE LEVEL DOWN (inside an array, inside an
